@@ -130,7 +130,7 @@ func (e *c05Env) routeTarIn(tree *c05Node, srcDir string, src []*c05Ent, diskCat
 		return
 	}
 	got, _ := os.ReadFile(out)
-	if i := firstDiff(got, diskCatar); i >= 0 {
+	if i := c05FirstDiff(got, diskCatar); i >= 0 {
 		// unpack it to say what differs
 		dst := e.scratch("dsttarin")
 		defer c05RemoveAll(dst)
@@ -673,7 +673,7 @@ func (e *c05Env) routeXattrOrder(seed uint64) {
 		c05RemoveAll(dir)
 	}
 	e.r.Count(fmt.Sprintf("xattr-order|%d", n), true)
-	if i := firstDiff(cats[0], cats[1]); i >= 0 || len(cats[0]) == 0 {
+	if i := c05FirstDiff(cats[0], cats[1]); i >= 0 || len(cats[0]) == 0 {
 		e.r.Fail("predicate", "tar/not-deterministic", fmt.Sprintf("the same %d xattrs set in opposite orders give different archives (first difference at byte %d)", n, i),
 			map[string]interface{}{"route": "xattr-order", "keys": keys})
 	}
@@ -742,7 +742,7 @@ func (e *c05Env) routeTarShuffle(tree *c05Node, srcDir string, src []*c05Ent, r 
 		e.r.Fail("corr", "corr:C05/tar-stream-order", "the model has no archive for a reordered stream the implementation encodes", c)
 	case cerr == nil && ok:
 		got, _ := os.ReadFile(out)
-		if i := firstDiff(got, m); i >= 0 {
+		if i := c05FirstDiff(got, m); i >= 0 {
 			c.Detail = fmt.Sprintf("first difference at byte %d of %d/%d", i, len(got), len(m))
 			e.r.Fail("corr", "corr:C05/tar-stream-order", "archive of a reordered tar stream differs from the model of tar(): "+c.Detail, c)
 		}
